@@ -27,7 +27,7 @@ structure UpCtx (c : Cfg) (s : S) : Prop where
   pd : s.procDone = false
   sr : s.setupRetry = false
   dir : s.direct = false
-  ur : s.upReset = true → s.phase = .UpRecvData ∨ s.phase = .UpRecvTrailer
+  ur : s.upReset = true → s.phase = .UpRecvData ∨ s.phase = .UpRecvTrailer ∨ (s.phase = .UpFilter ∧ s.urr = true)
   lc : liveCount s.streams = 0 ∨ (s.urr = true ∧ respHasMore s.resp = true)
   tm : (s.perTry = false ∧ s.global = false) ∨ s.urr = true
 
@@ -189,7 +189,11 @@ theorem inv_work_urh (c : Cfg) (ar aq : Nat) (s : S) (h : Inv c ar aq s) (hrun :
   have hur : s.upReset = false := by
     cases hu : s.upReset with
     | false => rfl
-    | true => rcases hur0 hu with hh | hh <;> (rw [hp] at hh; cases hh)
+    | true =>
+      rcases hur0 hu with hh | hh | hh
+      · rw [hp] at hh; cases hh
+      · rw [hp] at hh; cases hh
+      · have := hh.1; rw [hp] at this; cases this
   obtain ⟨_, hresp, _, _, hrst0, _, _⟩ := h.k15 hcl hupp
   have hrst : s.respStarted = false := by rw [hrst0, hp]; decide
   obtain ⟨r, hr⟩ : ∃ r, s.resp = some r := by
